@@ -26,6 +26,9 @@
     lat ∈ [-90,90]: `(wrap180 lon, lat)` outside the snap cap, `(0, ±90)` inside), `_norm`,
     `lonlat_roundtrip_id`; the seam `wrap180_of_mem`, `wrap180_seam` (+180 ↦ -180), `wrap180_periodic`;
     which inputs snap: `snap_branch_iff`, `snap_cap_iff_lat` (|φ| > arcsin (1 − tol)).
+  * derived centres read only the element's own real corners: `centroid_row_local`,
+    `centroid_renumber`, `centroid_orphans_irrelevant` (unused nodes inserted first / in the middle /
+    LAST change nothing), `edge_centre_row_local`, `edge_centre_orphans_irrelevant`.
   * the driver's Boolean checkers decide the Props: `sameDirB_iff`, `rangeB_iff`, `closeB_iff`.
   * counterexamples for the snapshot: `asis_node_lon_out_of_range`, `asis_centre_degrees_as_radians`,
     `asis_centre_nonunit`, `asis_provenance_fails`.
@@ -1280,5 +1283,70 @@ example (h0 : 0 < tol) (h1 : tol < 1) :
   rcases snap_branch_iff (ct := ct) h0 ⟨1, 0, 0⟩ (by norm_num [normSq, dot]) with ⟨_, h⟩ | ⟨h, _⟩
   · simp at h; linarith
   · exact h
+
+/-! ### derived centres depend only on the element's own real corners -/
+
+/-- a face centroid reads only the node entries its own row names: two node arrays that agree on
+    the corners of `f` give the same centroid (whatever else they contain, e.g. nodes no face uses) -/
+theorem centroid_row_local (nodes nodes' : List (V3 ℝ)) (f : List Nat)
+    (h : ∀ i ∈ f, nodeAt nodes' i = nodeAt nodes i) :
+    faceCentroid (R tol ct) nodes' f = faceCentroid (R tol ct) nodes f := by
+  simp only [faceCentroid]
+  rw [List.map_congr_left h]
+
+/-- invariance under any renumbering `ρ` of the nodes that carries the corners' positions along -/
+theorem centroid_renumber (ρ : Nat → Nat) (nodes nodes' : List (V3 ℝ)) (f : List Nat)
+    (h : ∀ i ∈ f, nodeAt nodes' (ρ i) = nodeAt nodes i) :
+    faceCentroid (R tol ct) nodes' (f.map ρ) = faceCentroid (R tol ct) nodes f := by
+  simp only [faceCentroid, List.map_map]
+  have : f.map (nodeAt nodes' ∘ ρ) = f.map (nodeAt nodes) := List.map_congr_left (fun i hi => h i hi)
+  rw [this]
+
+/-- the numbering after inserting `k` extra nodes at position `pos` -/
+def shiftAt (pos k : Nat) (i : Nat) : Nat := if i < pos then i else i + k
+
+theorem nodeAt_insert (nodes extra : List (V3 ℝ)) (pos i : Nat) (hpos : pos ≤ nodes.length) :
+    nodeAt (nodes.take pos ++ extra ++ nodes.drop pos) (shiftAt pos extra.length i) = nodeAt nodes i := by
+  simp only [nodeAt, shiftAt, List.getD_eq_getElem?_getD]
+  congr 1
+  by_cases h : i < pos
+  · simp only [h, if_true]
+    rw [List.append_assoc, List.getElem?_append_left (by simp; omega), List.getElem?_take_of_lt h]
+  · simp only [h, if_false]
+    have hlen : (nodes.take pos ++ extra).length = pos + extra.length := by simp; omega
+    rw [List.getElem?_append_right (by rw [hlen]; omega), hlen, List.getElem?_drop]
+    congr 1; omega
+
+/-- nodes that no face uses are irrelevant wherever they are numbered: inserting any extra nodes at
+    the start, in the middle or at the END of the node arrays (and renumbering the table
+    accordingly) leaves every face centroid unchanged -/
+theorem centroid_orphans_irrelevant (nodes extra : List (V3 ℝ)) (pos : Nat) (hpos : pos ≤ nodes.length)
+    (f : List Nat) :
+    faceCentroid (R tol ct) (nodes.take pos ++ extra ++ nodes.drop pos) (f.map (shiftAt pos extra.length))
+      = faceCentroid (R tol ct) nodes f :=
+  centroid_renumber _ _ _ _ (fun i _ => nodeAt_insert nodes extra pos i hpos)
+
+theorem edge_centre_row_local (nodes nodes' : List (V3 ℝ)) (e : Nat × Nat)
+    (h1 : nodeAt nodes' e.1 = nodeAt nodes e.1) (h2 : nodeAt nodes' e.2 = nodeAt nodes e.2) :
+    edgeCentroid (R tol ct) nodes' e = edgeCentroid (R tol ct) nodes e := by
+  simp only [edgeCentroid, h1, h2]
+
+theorem edge_centre_orphans_irrelevant (nodes extra : List (V3 ℝ)) (pos : Nat) (hpos : pos ≤ nodes.length)
+    (e : Nat × Nat) :
+    edgeCentroid (R tol ct) (nodes.take pos ++ extra ++ nodes.drop pos)
+        (shiftAt pos extra.length e.1, shiftAt pos extra.length e.2)
+      = edgeCentroid (R tol ct) nodes e := by
+  simp only [edgeCentroid, nodeAt_insert nodes extra _ _ hpos]
+
+/-- non-vacuity: an unused node appended LAST (the seeded C04e situation) and one put FIRST -/
+example (a b c z : V3 ℝ) :
+    faceCentroid (R tol ct) [a, b, c, z] [0, 1, 2] = faceCentroid (R tol ct) [a, b, c] [0, 1, 2] :=
+  centroid_orphans_irrelevant [a, b, c] [z] 3 (by simp) [0, 1, 2]
+example (a b c z : V3 ℝ) :
+    faceCentroid (R tol ct) [z, a, b, c] [1, 2, 3] = faceCentroid (R tol ct) [a, b, c] [0, 1, 2] :=
+  centroid_orphans_irrelevant [a, b, c] [z] 0 (by simp) [0, 1, 2]
+example (a b z : V3 ℝ) :
+    edgeCentroid (R tol ct) [a, z, b] (0, 2) = edgeCentroid (R tol ct) [a, b] (0, 1) :=
+  edge_centre_orphans_irrelevant [a, b] [z] 1 (by simp) (0, 1)
 
 end UxVerif.C04
